@@ -63,7 +63,7 @@ def sourceHashes : List (String × String) :=
   [("Interpreter.Compile", "0af2ee423e207830"),
    ("Interpreter.compileSrc", "9427d3d379f61f48"),
    ("Interpreter.CompileAST", "cea597b5fd1e79aa"),
-   ("Interpreter.Execute", "eaf1129b747c09aa")] ++
+   ("Interpreter.Execute", "19fb5462ea693d28")] ++
   [("scope.add", "441317678d25bfc3"),
    ("scope.lookup", "cc08c4552fe1b40f"),
    ("Interpreter.initScopePkg", "63b314ce3e13a2d6"),
